@@ -7,6 +7,14 @@ open Lean Barril Barril.Proto Barril.Fail
 def absR (q : Rat) : Rat := if q < 0 then -q else q
 def maxR (a b : Rat) : Rat := if a < b then b else a
 
+def parseCmp (f : String) : Except String CmpOp :=
+  match f with
+  | "lt" => pure CmpOp.lt
+  | "le" => pure CmpOp.le
+  | "gt" => pure CmpOp.gt
+  | "ge" => pure CmpOp.ge
+  | _ => throw s!"bad cmp {f}"
+
 def parseOp (j : Json) : Except String FOp := do
   let k ← getStr j "k"
   match k with
@@ -22,16 +30,28 @@ def parseOp (j : Json) : Except String FOp := do
     pure (.arith op (← getSym j "c1") (← getSym j "u1") (← getSym j "c2") (← getSym j "u2")
       (← getRat j "x") (← getRat j "y"))
   | "cmp" =>
-    let f ← getStr j "f"
-    let op ← match f with
-      | "lt" => pure CmpOp.lt
-      | "le" => pure CmpOp.le
-      | "gt" => pure CmpOp.gt
-      | "ge" => pure CmpOp.ge
-      | _ => throw s!"bad cmp {f}"
+    let op ← parseCmp (← getStr j "f")
     pure (.cmp op (← getSym j "c1") (← getSym j "u1") (← getSym j "c2") (← getSym j "u2")
       (← getRat j "x") (← getRat j "y"))
   | _ => throw s!"unknown op kind {k}"
+
+def parseEnt (j : Json) : Except String Ent := do
+  pure ⟨← getSym j "c", ← getSym j "u", ← getInt j "e"⟩
+
+def parseEnts (j : Json) (k : String) : Except String (List Ent) := do
+  (← getArr j k).toList.mapM parseEnt
+
+def parseXOp (j : Json) : Except String XOp := do
+  let k ← getStr j "k"
+  match k with
+  | "createu" => pure (.createU (← getSym j "u"))
+  | "createdict" => pure (.createDict (← getBool j "validate") (← parseEnts j "es"))
+  | "cmpq" =>
+    pure (.cmpq (← parseCmp (← getStr j "f")) (← parseEnts j "a") (← parseEnts j "b") (← getRat j "x") (← getRat j "y"))
+  | "addcat" => pure (.reg (.addCategory (← getSym j "c") (← getSym j "qt") (← getBool j "override")))
+  | "addunit" =>
+    pure (.reg (.addUnit (← getSym j "qt") (← getSym j "name") (← getSym j "u") (← getSym j "dc") (← getRat j "scale")))
+  | _ => pure (.plain (← parseOp j))
 
 /-- magnitude of the intermediates of an operation (for the float comparison) -/
 def magOf : FOp → Rat
@@ -50,17 +70,32 @@ def outJ (op : FOp) : Except ErrKind FOut → Json
       ("M", ratJ (maxR (magOf op) (absR x)))])]
   | .ok (.bool b) => Json.mkObj [("ok", Json.mkObj [("b", .bool b)])]
 
-def runOps (db : Db) : FState → List FOp → List Json
+def xmagOf : XOp → Rat
+  | .plain op => magOf op
+  | .cmpq _ _ _ x y => maxR (absR x) (absR y)
+  | _ => 0
+
+def xoutJ (op : XOp) : Except ErrKind XOut → Json
+  | .error e => errJ e
+  | .ok (.plain o) =>
+    match op with
+    | .plain fop => outJ fop (.ok o)
+    | _ => outJ (.check 0 0) (.ok o)
+  | .ok (.quant q) =>
+    Json.mkObj [("ok", Json.mkObj [("cat", symJ q.category), ("unit", symJ q.unit), ("qt", symJ q.qtype),
+      ("derived", .bool q.derived)])]
+
+def runOps : XState → List XOp → List Json
   | _, [] => []
-  | s, op :: ops => outJ op (step db s op).2 :: runOps db (step db s op).1 ops
+  | st, op :: ops => xoutJ op (xstep st op).2 :: runOps (xstep st op).1 ops
 
 def handle (j : Json) : Except String Json := do
   let op ← getStr j "op"
   match op with
   | "history" =>
     let ops ← getArr j "ops"
-    let ops ← ops.toList.mapM parseOp
-    pure (Json.mkObj [("outs", Json.arr (runOps Gen.poscDb FState.empty ops).toArray)])
+    let ops ← ops.toList.mapM parseXOp
+    pure (Json.mkObj [("outs", Json.arr (runOps (XState.fresh Gen.poscDb) ops).toArray)])
   | _ => throw s!"unknown op {op}"
 
 def step' (j : Json) : Json :=
